@@ -163,6 +163,14 @@ def generic_run(ctx, compare, oracle_props, micro_prefixes=None, known_ids=(), e
     replay_known(ctx, known_ids)
 
 
+def normalize_env(env):
+    for t in env["group"]:
+        for k, v in list(t.items()):
+            if isinstance(v, list):
+                t[k] = tuple(v)
+    return env
+
+
 def replay_known(ctx, known_ids):
     """each listed finding is replayed against the current tree; if it still fails it is printed as KNOWN-FINDING"""
     kf = {f["id"]: f for f in ctx["known"].get("findings", [])}
@@ -175,7 +183,7 @@ def replay_known(ctx, known_ids):
         still = False
         why = ""
         if f.get("env") is not None and "ctx" in i["k"]:
-            v, _ = oracle.check_program(text, i["k"], [f["env"]])
+            v, _ = oracle.check_program(text, i["k"], [normalize_env(f["env"])], masks=False)
             v = [x for x in v if x["property"] == ctx["pid"]]
             still = bool(v)
             why = v[0]["what"] if v else ""
